@@ -1161,7 +1161,12 @@ func c05IngestRole(c *Ctx, R string, g *ssa.Function, desc, rd *ssa.Parameter, p
 		if !isC || CalleeName(ct) != "os.CreateTemp" {
 			continue
 		}
-		why = c05IngestDirOK(c05ModuleFuncs(c.P), ct.Call.Args[0])
+		why = ""
+		for _, src := range c05ArgSources(c.P.FuncsOfPkg("content/oci"), g, ct.Call.Args[0], 0) {
+			if w := c05IngestDirOK(c05ModuleFuncs(c.P), src.V); w != "" {
+				why = w
+			}
+		}
 		okTmp = why == ""
 	}
 	c.Check(R, gn+"|temp-file-outside-blobs", g.Pos(), okTmp,
@@ -1430,12 +1435,6 @@ func c05IsOCIDescriptor(t types.Type) bool {
 	return ok && n.Obj().Name() == "Descriptor" && n.Obj().Pkg() != nil && strings.HasSuffix(n.Obj().Pkg().Path(), "image-spec/specs-go/v1")
 }
 
-// c05PostPushEffects: state changes a store front-end performs besides the inner Push.
-var c05PostPushEffects = map[string]bool{
-	"(*~/internal/graph.Memory).Index": true, "(*~/internal/graph.Memory).IndexAll": true, "(*~/content/oci.Store).tag": true,
-	"(~/content.Tagger).Tag": true, "(*~/internal/resolver.Memory).Tag": true, "(*~/content/file.Store).restoreDuplicates": true,
-	"(*~/content/oci.Store).saveIndex": true,
-}
 
 func c05R2Wrappers(c *Ctx) {
 	const R = "C05.R2.wrapper-forwards-descriptor"
@@ -1538,7 +1537,7 @@ func c05Wrappers(c *Ctx, R string, refusalOnly bool) {
 			okR, detail := true, ""
 			var tol []string
 			if x.pkg == "content/file" {
-				tol = []string{"~/content/file.errSkipUnnamed"}
+				tol = c05SkipSentinels(c.P)
 			}
 			seen := map[ssa.Instruction]bool{}
 			for _, h := range hits {
@@ -1764,7 +1763,9 @@ func c05AddProvenance(c *Ctx, R string) {
 				continue
 			}
 			fname := FnName(f)
-			key, val := strip(call.Common().Args[1]), strip(call.Common().Args[2])
+			kv, _ := c05Root(f).up(strip(call.Common().Args[1])) // through a descriptor literal that merely carries the digest
+			vv, _ := c05Root(f).up(strip(call.Common().Args[2]))
+			key, val := strip(kv), strip(vv)
 			okP, detail := false, "key "+describe(key)+" is not a digest the store computed over the recorded file"
 			switch k := key.(type) {
 			case *ssa.Extract: // digest.FromReader(fp) with fp = os.Open(path), value = path
@@ -2163,7 +2164,7 @@ func c05R4(c *Ctx) {
 					tol = []string{"~/errdef.ErrNotFound", "~/content/file.ErrDuplicateName"}
 				case root.Object() != nil && root.Object().Exported():
 					// Store.Push: unnamed content is discarded on request (IgnoreNoName)
-					tol = []string{"~/content/file.errSkipUnnamed"}
+					tol = c05SkipSentinels(c.P)
 				}
 			}
 			r := c05ErrFlow(call, ErrFlowOpts{Tolerated: tol})
@@ -2746,3 +2747,41 @@ func c05R5NotFound(c *Ctx) {
 		}
 	}
 }
+
+// c05SkipSentinels: the unexported package-level error variables of
+// content/file that the exported Store.Push compares its inner error with
+// (errors.Is / ==): the "discard unnamed content on request" signal.  An
+// exported sentinel (ErrDuplicateName, …) is never in this set.
+func c05SkipSentinels(p *Prog) []string {
+	fn := p.Fn("content/file", "Store.Push")
+	if fn == nil {
+		return nil
+	}
+	set := map[string]bool{}
+	AllInstrs(fn, func(in ssa.Instruction) {
+		var cands []ssa.Value
+		switch x := in.(type) {
+		case *ssa.Call:
+			if CalleeName(x) == "errors.Is" && len(x.Call.Args) == 2 {
+				cands = append(cands, x.Call.Args[1])
+			}
+		case *ssa.BinOp:
+			if x.Op == token.EQL || x.Op == token.NEQ {
+				cands = append(cands, x.X, x.Y)
+			}
+		}
+		for _, v := range cands {
+			u, ok := strip(v).(*ssa.UnOp)
+			if !ok {
+				continue
+			}
+			g, ok := u.X.(*ssa.Global)
+			if ok && fnPkgPathOfGlobal(g) == pkgPath("content/file") && !token.IsExported(g.Name()) && isErrorType(g.Type().(*types.Pointer).Elem()) {
+				set[short(g.Pkg.Pkg.Path()+"."+g.Name())] = true
+			}
+		}
+	})
+	return c05SortedKeys(set)
+}
+
+func fnPkgPathOfGlobal(g *ssa.Global) string { return g.Pkg.Pkg.Path() }
